@@ -296,6 +296,23 @@ func genStructured(r *rand.Rand, tier string, emit func([]string)) {
 			emit(seq)
 		}
 	}
+	// (b2) prefix lengths the slow path cannot configure (0, 1, 31, 32, 33, 255), lease times 0 / 1 / 2^31+5 / 2^32-1,
+	// gateway and DNS servers 0: raw ip_pools bytes, cache hit by MAC
+	{
+		p := defFP()
+		p.opts = []byte{53, 1, 1, 255}
+		p.bootpTo = 320
+		for _, plen := range []byte{0, 1, 31, 32, 33, 255} {
+			for _, lease := range []uint32{0, 1, 0x80000005, 0xffffffff} {
+				seq := []string{"new raw",
+					"put pools 01000000 " + poolVal(0x0a000100, plen, uint32(plen)<<8, 0, 0x08080404*uint32(plen&1), lease),
+					"put cfg 00000000 " + cfgVal(srvMAC, 0x0a000101, 2),
+					"put sub " + macKeyHex(p.mac) + " " + assignment(1, 0x0a000105, 2000000000),
+					runOp(p.frame(), "17000000000")}
+				emit(seq)
+			}
+		}
+	}
 	// (c) the negative header cases and the lookups that fail
 	{
 		seq := []string{"new raw"}
@@ -446,6 +463,7 @@ func (comp) Gen(r *rand.Rand, tier string, emit func([]string)) {
 	genRandom(r, tier, emit)
 	genHlen(r, tier, emit)
 	genSubsecond(r, tier, emit)
+	genPoolEdges(r, tier, emit)
 	genExhaustive(r, tier, emit)
 	genServer(r, tier, emit)
 }
